@@ -35,17 +35,29 @@ func runC30(c *Ctx) {
 	} else {
 		info := fn.Info()
 		construct := rel + ".(*tsdbBasedPlanner).plan"
+		var pn []string
+		for _, f := range fn.Decl.Type.Params.List {
+			for _, nm := range f.Names {
+				pn = append(pn, nm.Name)
+			}
+		}
+		if len(pn) != 2 {
+			c.Incomplete("no-compact-never-planned", construct, p.Pos(fn.Decl.Pos()), "unexpected signature")
+			return
+		}
+		pMarked, pMetas := pn[0], pn[1]
+		bind := shapeBind{}
 		// the filtered list
 		okFilter := false
 		ast.Inspect(fn.Body(), func(nd ast.Node) bool {
 			rs, ok := nd.(*ast.RangeStmt)
-			if !ok || canon(rs.X) != "metasByMinTime" || len(rs.Body.List) != 2 {
+			if !ok || canon(rs.X) != pMetas || len(rs.Body.List) != 2 {
 				return true
 			}
 			is, ok1 := rs.Body.List[0].(*ast.IfStmt)
 			as, ok2 := rs.Body.List[1].(*ast.AssignStmt)
-			if ok1 && ok2 && is.Init != nil && strings.Contains(stmtText(p, is.Init), ":=noCompactMarked[") && len(is.Body.List) == 1 && stmtText(p, is.Body.List[0]) == "continue" &&
-				strings.HasPrefix(stmtText(p, as), "notExcludedMetasByMinTime=append(notExcludedMetasByMinTime,") {
+			if ok1 && ok2 && is.Init != nil && strings.Contains(stmtText(p, is.Init), ":="+pMarked+"[") && len(is.Body.List) == 1 && stmtText(p, is.Body.List[0]) == "continue" &&
+				prefixShape("§kept=append(§kept,", stmtText(p, as), bind) {
 				okFilter = true
 			}
 			return true
@@ -54,16 +66,16 @@ func runC30(c *Ctx) {
 		ast.Inspect(fn.Body(), func(nd ast.Node) bool {
 			switch v := nd.(type) {
 			case *ast.CallExpr:
-				if f := calleeOf(info, v); f != nil && f.Name() == "selectOverlappingMetas" && len(v.Args) == 1 && canon(v.Args[0]) == "notExcludedMetasByMinTime" {
+				if f := calleeOf(info, v); f != nil && f.Name() == "selectOverlappingMetas" && len(v.Args) == 1 && bind["§kept"] != "" && canon(v.Args[0]) == bind["§kept"] {
 					overlapOnFiltered = true
 				}
 			case *ast.ForStmt:
-				if v.Init != nil && strings.Contains(stmtText(p, v.Init), "len(notExcludedMetasByMinTime)-1") {
+				if v.Init != nil && bind["§kept"] != "" && strings.Contains(stmtText(p, v.Init), "len("+bind["§kept"]+")-1") {
 					// returns only elements of the filtered list
 					ok := true
 					ast.Inspect(v.Body, func(x ast.Node) bool {
 						if ret, isRet := x.(*ast.ReturnStmt); isRet && len(ret.Results) == 2 && !isNil(info, ret.Results[0]) {
-							if !strings.Contains(stmtText(p, ret.Results[0]), "notExcludedMetasByMinTime[i]") {
+							if !containsShape("§kept[§ti]", stmtText(p, ret.Results[0]), bind) {
 								ok = false
 							}
 						}
@@ -83,7 +95,7 @@ func runC30(c *Ctx) {
 		ast.Inspect(fn.Body(), func(nd ast.Node) bool {
 			switch v := nd.(type) {
 			case *ast.AssignStmt:
-				if stmtText(p, v) == "metasByMinTime=metasByMinTime[:len(metasByMinTime)-1]" {
+				if stmtText(p, v) == pMetas+"="+pMetas+"[:len("+pMetas+")-1]" {
 					trimPos = v.Pos()
 				}
 			case *ast.CallExpr:
@@ -93,7 +105,7 @@ func runC30(c *Ctx) {
 			}
 			return true
 		})
-		c.Check(trimPos != token.NoPos && callPos > trimPos && callArg == "metasByMinTime", "newest-block-not-range-planned", construct, p.Pos(fn.Decl.Pos()), "newest-block-planned",
+		c.Check(trimPos != token.NoPos && callPos > trimPos && callArg == pMetas, "newest-block-not-range-planned", construct, p.Pos(fn.Decl.Pos()), "newest-block-planned",
 			"the range rule must not see the newest block (selectMetas must be called after the last element was cut off)")
 	}
 	if fn := p.Func(rel, "", "selectMetas"); fn == nil {
@@ -104,8 +116,10 @@ func runC30(c *Ctx) {
 		// the cut loop
 		var cut *ast.RangeStmt
 		ast.Inspect(fn.Body(), func(nd ast.Node) bool {
-			if rs, ok := nd.(*ast.RangeStmt); ok && rs.Key != nil && strings.Contains(stmtText(p, rs.Body), "lastExcluded=") {
-				cut = rs
+			if rs, ok := nd.(*ast.RangeStmt); ok && rs.Key != nil && len(rs.Body.List) == 3 {
+				if _, isAs := rs.Body.List[2].(*ast.AssignStmt); isAs && matchShape("§last=§i+1", stmtText(p, rs.Body.List[2]), shapeBind{"§i": canon(rs.Key)}) {
+					cut = rs
+				}
 			}
 			return true
 		})
@@ -113,7 +127,7 @@ func runC30(c *Ctx) {
 		if cut == nil {
 			bad = "the loop that cuts a group around marked blocks was not found"
 		} else {
-			i := canon(cut.Key)
+			cb := shapeBind{"§i": canon(cut.Key)}
 			body := cut.Body.List
 			ok := len(body) == 3
 			if ok {
@@ -121,9 +135,9 @@ func runC30(c *Ctx) {
 				is1, b := body[1].(*ast.IfStmt)
 				as2, cc := body[2].(*ast.AssignStmt)
 				ok = a && b && cc &&
-					is0.Init != nil && strings.Contains(stmtText(p, is0.Init), ":=noCompactMarked[") && strings.HasPrefix(stmtText(p, is0.Cond), "!") && stmtText(p, is0.Body) == "{continue}" &&
-					stmtText(p, is1.Cond) == "len(p[lastExcluded:"+i+"])>1" && stmtText(p, is1.Body) == "{returnp[lastExcluded:"+i+"]}" &&
-					stmtText(p, as2) == "lastExcluded="+i+"+1"
+					is0.Init != nil && containsShape(":=§marked[", stmtText(p, is0.Init), cb) && strings.HasPrefix(stmtText(p, is0.Cond), "!") && stmtText(p, is0.Body) == "{continue}" &&
+					matchShape("len(§p[§last:§i])>1", stmtText(p, is1.Cond), cb) && matchShape("{return §p[§last:§i]}", strings.Replace(stmtText(p, is1.Body), "{return", "{return ", 1), cb) &&
+					matchShape("§last=§i+1", stmtText(p, as2), cb)
 			}
 			if !ok {
 				bad = "the group is not cut as: unmarked → continue; marked → return p[lastExcluded:i] if it has more than one block, then lastExcluded = i+1"
@@ -155,10 +169,11 @@ func runC30(c *Ctx) {
 		ok := false
 		ast.Inspect(fn.Body(), func(nd ast.Node) bool {
 			is, isIf := nd.(*ast.IfStmt)
-			if !isIf || stmtText(p, is.Cond) != "len(overlappingMetas)==0" || len(is.Body.List) != 1 {
+			ob := shapeBind{}
+			if !isIf || !matchShape("len(§ov)==0", stmtText(p, is.Cond), ob) || len(is.Body.List) != 1 {
 				return true
 			}
-			if strings.HasPrefix(stmtText(p, is.Body.List[0]), "overlappingMetas=append(overlappingMetas,metasByMinTime[i])") {
+			if matchShape("§ov=append(§ov,§metas[§i])", stmtText(p, is.Body.List[0]), ob) {
 				ok = true
 			}
 			return true
@@ -172,13 +187,32 @@ func runC30(c *Ctx) {
 		c.Incomplete("range-group-fits-one-range", rel+".splitByRange", "", "function not found")
 	} else {
 		construct := rel + ".splitByRange"
-		var align *ast.IfStmt
+		// names by role: the membership test `m.MaxTime > t0 + tr` gives the window start and the range size
+		nb := shapeBind{}
+		var alignStmts []ast.Stmt
+		var alignPos ast.Node
 		ast.Inspect(fn.Body(), func(nd ast.Node) bool {
-			if is, ok := nd.(*ast.IfStmt); ok && is.Else != nil && strings.HasSuffix(stmtText(p, is.Cond), ".MinTime>=0") {
-				align = is
+			f, ok := nd.(*ast.ForStmt)
+			if !ok || len(alignStmts) > 0 {
+				return true
+			}
+			for i, st := range f.Body.List {
+				is, ok := st.(*ast.IfStmt)
+				if !ok || !matchShape("§m.MaxTime>§t0+§tr", stmtText(p, is.Cond), nb) || !strings.Contains(stmtText(p, is.Body), "continue") {
+					continue
+				}
+				for _, prev := range f.Body.List[:i] {
+					if strings.Contains(stmtText(p, prev), nb["§t0"]+"=") {
+						alignStmts = append(alignStmts, prev)
+						if alignPos == nil {
+							alignPos = prev
+						}
+					}
+				}
 			}
 			return true
 		})
+		var align ast.Node = alignPos
 		if align == nil {
 			c.Incomplete("range-group-fits-one-range", construct+"#alignment", p.Pos(fn.Decl.Pos()), "alignment computation not found")
 		} else {
@@ -193,13 +227,13 @@ func runC30(c *Ctx) {
 							}
 							return ""
 						}, check: func(lenState, ast.Node) string { return "" }}
-					out := li.run([]ast.Stmt{align}, lenState{v: map[string]int64{"mn": mn, "tr": tr, "t0": 0}})
+					out := li.run(alignStmts, lenState{v: map[string]int64{"mn": mn, nb["§tr"]: tr, nb["§t0"]: 0}})
 					runs++
 					for _, u := range li.unknown {
 						unknown[u] = true
 					}
 					for _, s := range out {
-						t0 := s.v["t0"]
+						t0 := s.v[nb["§t0"]]
 						if ((t0%tr)+tr)%tr != 0 || !(t0 <= mn && mn < t0+tr) {
 							viol = fmt.Sprintf("MinTime=%d range=%d → t0=%d is not the aligned range start containing the block's start", mn, tr, t0)
 						}
@@ -218,16 +252,17 @@ func runC30(c *Ctx) {
 		}
 		// membership
 		skipFirst, stopAtEnd := false, false
+		mb := shapeBind{}
 		ast.Inspect(fn.Body(), func(nd ast.Node) bool {
 			is, ok := nd.(*ast.IfStmt)
 			if !ok {
 				return true
 			}
 			t := stmtText(p, is.Cond)
-			if t == "m.MaxTime>t0+tr" && strings.Contains(stmtText(p, is.Body), "continue") {
+			if matchShape("§m.MaxTime>§t0+§tr", t, mb) && strings.Contains(stmtText(p, is.Body), "continue") {
 				skipFirst = true
 			}
-			if t == "metasByMinTime[i].MaxTime>t0+tr" && stmtText(p, is.Body) == "{break}" {
+			if matchShape("§metas[§i].MaxTime>§t0+§tr", t, mb) && stmtText(p, is.Body) == "{break}" {
 				stopAtEnd = true
 			}
 			return true
